@@ -113,6 +113,7 @@ impl Prop for C08Prop {
             keyings: 1,
             boundary_per_mille: 0,
             huge_one_in: 1000,
+            hub_one_in: 0,
         }
         .gen("C08", seed, idx)
     }
